@@ -9,6 +9,7 @@ From Coq Require Import ZArith QArith List Bool.
 From DS Require Import Base.ZMat Base.SGDefs Model.GroupCheck Model.C05_QBase Model.C05_PosCert Model.C05_Partition.
 From DS Require Gen.SGTables Proofs.C03All.
 From DS Require Import Proofs.C05_RunSpec Proofs.C05_QLemmas Proofs.C05_PosSound Proofs.C05_Example Proofs.C05_Orbit.
+From DS Require Import Model.C06_Query Gen.C06_QueryGuards Model.C06_QueryMethods Proofs.C06_QuerySound Proofs.C06_QueryGuards.
 Import ListNotations.
 Open Scope Q_scope.
 
@@ -106,3 +107,31 @@ Theorem C05_group_hypotheses_satisfiable : GroupCheck.IsGroup ex_G /\
   (forall p h, In h (stab ex_G (moved ex_pcert p)) -> In h (stab ex_G (pc_x ex_pcert))) /\
   core_map ex_G [Q3 (1 # 7) (1 # 5) (1 # 3); ex_x; Q3 (1 # 7) (9 # 5) (1 # 3)] = [(0, [0; 2]); (1, [1])]%nat.
 Proof. exact (conj ex_G_is_group (conj no_new_symmetry_satisfiable core_map_example)). Qed.
+
+(* ---- the position query that opens GeneratorSite.positionFormula (model: Model/C06_Query.v; the tolerance handed to equalPositions is read from the
+   current source into Gen/C06_QueryGuards.v on every run).  e = the eps the site was built with, sites = eqxyz.
+   Answered (Some i)  -> i is a listed position within e of pos modulo lattice translations, none is nearer, eqIndex agrees;
+   every pos within e of SOME listed position is answered; the empty answer means none is within e; a wider eps keeps answers. *)
+Theorem C05_formula_query_honours_site_eps : forall e sites q,
+  (forall i, position_formula_query e sites q = Some i ->
+     (i < List.length sites)%nat /\ NearInt3 e (q3sub (nth i sites q3zero) q) /\
+     (forall j, (j < List.length sites)%nat -> boxd (nth i sites q3zero) q <= boxd (nth j sites q3zero) q) /\
+     eq_index_query sites q = Some i) /\
+  (forall j, (j < List.length sites)%nat -> NearInt3 e (q3sub (nth j sites q3zero) q) ->
+     exists i, position_formula_query e sites q = Some i) /\
+  (position_formula_query e sites q = None ->
+     forall j, (j < List.length sites)%nat -> ~ NearInt3 e (q3sub (nth j sites q3zero) q)) /\
+  (forall e' i, e <= e' -> position_formula_query e sites q = Some i -> position_formula_query e' sites q = Some i).
+Proof. exact position_query_spec. Qed.
+Print Assumptions C05_formula_query_honours_site_eps.
+
+(* positionFormula and UFormula accept exactly the same points; SymmetryConstraints / ExpandAsymmetricUnit build their sites with their own eps *)
+Theorem C05_queries_agree_and_eps_is_passed_on : (forall e sites q, u_formula_query e sites q = position_formula_query e sites q) /\
+  (forall e, site_eps_in_SymmetryConstraints e = e /\ site_eps_in_ExpandAsymmetricUnit e = e).
+Proof. exact (Logic.conj queries_agree constructors_pass_eps). Qed.
+Print Assumptions C05_queries_agree_and_eps_is_passed_on.
+
+Theorem C05_query_example :
+  let sites := [Q3 0 0 0; Q3 (1 # 2) (1 # 2) 0] in let q := Q3 (15003 # 10000) (-4998 # 10000) (1 # 10000) in
+  site_query (1 # 1000) sites q = Some 1%nat /\ site_query (1 # 100000) sites q = None /\ eq_index sites q = Some 1%nat.
+Proof. exact site_query_example. Qed.
